@@ -1102,17 +1102,55 @@ def _sqrt1(v):
         ab = [sabs(x) for x in v.sumsq]
         if len(ab) == 1:
             return ab[0]
-        r = E.fresh_real("norm", register=False)
-        tot = ab[0]
-        for x in ab[1:]:
-            tot = tot + x
-        cons = [r.e >= core.zexpr(x) for x in ab] + [r.e <= core.zexpr(tot)]
-        E.solver.add(*cons)
-        r.bad = v.bad
-        return r
+        return _linear_norm(E, list(v.sumsq), ab, v.bad)
     r = E.fresh_real("sqrt", register=False)
     E.solver.add(r.e >= 0, r.e * r.e == v.e)
+    E._dirty = True
     r.bad = v.bad
+    return r
+
+
+def _linear_norm(E, vec, ab, bad):
+    """2-norm of a vector of length >= 2 kept inside linear arithmetic: a fresh r with the valid
+    facts  max|v_i| <= r <= sum|v_i|,  the triangle inequality  r <= sum r_a  whenever v is
+    (syntactically) the sum of vectors whose norms were taken before, and the block rule
+    |(v1,v2)| <= |v1| + |v2|.  Every fact holds for the Euclidean norm, so the model
+    over-approximates it (sound for proofs; counterexamples are replayed concretely)."""
+    r = E.fresh_real("norm", register=False)
+    tot = ab[0]
+    for x in ab[1:]:
+        tot = tot + x
+    E.solver.add(*([r.e >= core.zexpr(x) for x in ab] + [r.e <= core.zexpr(tot)]))
+    ve = [core.zexpr(x) for x in vec]
+    reg = E.__dict__.setdefault("_norms", {})
+    if reg.get("path") is not E.trace:
+        reg.clear()
+        reg["path"] = E.trace
+        reg["items"] = []
+    items = reg["items"]
+
+    def upper(sub):
+        """a linear upper bound on |sub| from registered norms, or None"""
+        if len(sub) == 1:
+            return z3.If(sub[0] >= 0, sub[0], -sub[0])
+        cands = [(w, rw) for (w, rw) in items if len(w) == len(sub)][-6:]
+        n = len(cands)
+        for mask in range(1, 1 << n):
+            pick = [cands[i] for i in range(n) if mask >> i & 1]
+            if builtins.all(z3.is_true(z3.simplify(sub[i] - builtins.sum([w[i] for w, _ in pick][1:], pick[0][0][i]) == 0)) for i in range(len(sub))):
+                return builtins.sum([rw for _, rw in pick][1:], pick[0][1])
+        return None
+
+    u = upper(ve)
+    if u is not None:
+        E.solver.add(r.e <= u)
+    for p in range(1, len(ve)):
+        a, b = upper(ve[:p]), upper(ve[p:])
+        if a is not None and b is not None:
+            E.solver.add(r.e <= a + b)
+    items.append((ve, r.e))
+    E._dirty = True
+    r.bad = bad
     return r
 
 
